@@ -496,3 +496,108 @@ func VerifC11_PublicTypes() {
 	m := &openfgav1.AuthorizationModel{SchemaVersion: "1.1", TypeDefinitions: []*openfgav1.TypeDefinition{td}}
 	verifBuildAndCompare(m, "public-types")
 }
+
+// relationWeights: the weights of the relation nodes only (by label).
+func relationWeights(wg *WeightedAuthorizationModelGraph) string {
+	var sb strings.Builder
+	for _, l := range sortedKeys(wg.nodes) {
+		n := wg.nodes[l]
+		if n.nodeType == SpecificTypeAndRelation {
+			sb.WriteString(l + "=" + fmtWeights(n.weights) + ";")
+		}
+	}
+	return sb.String()
+}
+
+func swapOperands(u *openfgav1.Userset) *openfgav1.Userset {
+	switch x := u.GetUserset().(type) {
+	case *openfgav1.Userset_Union:
+		cs := x.Union.GetChild()
+		if len(cs) == 2 {
+			return fOp(0, cs[1], cs[0])
+		}
+	case *openfgav1.Userset_Intersection:
+		cs := x.Intersection.GetChild()
+		if len(cs) == 2 {
+			return fOp(1, cs[1], cs[0])
+		}
+	}
+	return nil
+}
+
+// VerifC06_OperandOrder: metamorphic twin - swapping the two operands of a union
+// or intersection, and reversing the list of type definitions, changes neither
+// the verdict nor any relation's weights.
+func VerifC06_OperandOrder() {
+	m, _ := fFamilyModel()
+	var doc *openfgav1.TypeDefinition
+	for _, td := range m.GetTypeDefinitions() {
+		if td.GetType() == "doc" {
+			doc = td
+		}
+	}
+	sw := swapOperands(doc.GetRelations()["a"])
+	if sw == nil {
+		return
+	}
+	g := specGraph(m)
+	if g.invalid == "" && g.hasMultiEdgeOperand() {
+		zzverif.Class("operand-order-does-not-change-the-verdict", "intersection/exclusion operand made of several edges")
+		zzverif.Class("operand-order-does-not-change-relation-weights", "intersection/exclusion operand made of several edges")
+	}
+	twin := &openfgav1.TypeDefinition{Type: "doc", Relations: map[string]*openfgav1.Userset{}, Metadata: doc.GetMetadata()}
+	for k, v := range doc.GetRelations() {
+		twin.Relations[k] = v
+	}
+	twin.Relations["a"] = sw
+	var tds []*openfgav1.TypeDefinition
+	for i := len(m.GetTypeDefinitions()) - 1; i >= 0; i-- { // reversed type definition order as well
+		td := m.GetTypeDefinitions()[i]
+		if td == doc {
+			td = twin
+		}
+		tds = append(tds, td)
+	}
+	m2 := &openfgav1.AuthorizationModel{SchemaVersion: "1.1", TypeDefinitions: tds}
+	w1, e1 := (&WeightedAuthorizationModelGraphBuilder{}).Build(m)
+	w2, e2 := (&WeightedAuthorizationModelGraphBuilder{}).Build(m2)
+	zzverif.Assert((e1 == nil) == (e2 == nil), "operand-order-does-not-change-the-verdict")
+	if e1 == nil && e2 == nil {
+		zzverif.Reach("accepted")
+		zzverif.Assert(relationWeights(w1) == relationWeights(w2), "operand-order-does-not-change-relation-weights")
+	}
+}
+
+// VerifC13_GraphHistory: the result of building a model does not depend on which
+// models were built before (same model id, different content).
+func VerifC13_GraphHistory() {
+	mk := func(withC bool) *openfgav1.AuthorizationModel {
+		td := &openfgav1.TypeDefinition{Type: "doc", Relations: map[string]*openfgav1.Userset{"p": fThis(), "a": fThis()},
+			Metadata: &openfgav1.Metadata{Relations: map[string]*openfgav1.RelationMetadata{
+				"p": {DirectlyRelatedUserTypes: []*openfgav1.RelationReference{fRef("doc")}},
+				"a": {DirectlyRelatedUserTypes: []*openfgav1.RelationReference{fRef("user")}}}}}
+		if withC {
+			td.Relations["c"] = fThis()
+			td.Metadata.Relations["c"] = &openfgav1.RelationMetadata{DirectlyRelatedUserTypes: []*openfgav1.RelationReference{fRef("user")}}
+			td.Relations["b"] = fTTU("c", "p")
+		} else {
+			td.Relations["b"] = fTTU("a", "p")
+		}
+		return &openfgav1.AuthorizationModel{Id: "01HVERIFSAMEID0000000000000", SchemaVersion: "1.1", TypeDefinitions: []*openfgav1.TypeDefinition{{Type: "user"}, td}}
+	}
+	v1, v2 := mk(false), mk(true)
+	switch zzverif.Choose("history", 3) {
+	case 1:
+		(&WeightedAuthorizationModelGraphBuilder{}).Build(v1)
+	case 2:
+		(&WeightedAuthorizationModelGraphBuilder{}).Build(v1)
+		(&WeightedAuthorizationModelGraphBuilder{}).Build(v2)
+	}
+	wg, err := (&WeightedAuthorizationModelGraphBuilder{}).Build(v2)
+	if err != nil {
+		zzverif.ObserveGlobal("build(v2)", "rejected")
+	} else {
+		zzverif.ObserveGlobal("build(v2)", "accepted "+graphDigest(wg))
+	}
+	zzverif.Reach("built")
+}
